@@ -938,3 +938,26 @@ def date_total(ck, F, rule="DATE-TOTAL"):
               "date_to_serial_number rejects calendar dates whose year may lie in 1899..=9999: serial numbers that from_excel_date maps "
               "to such a date (e.g. serial 1 = 1899-12-31) no longer convert back", f, l)
     ck.ob(rule, "date_to_serial_number|errors", k >= 1, "no error construction found (anchor lost?)", b.file, b.line)
+
+
+def truthiness_exact(ck, F, rule="TABLE-ops"):
+    """Number -> boolean coercion is `x != 0` exactly: every floating-point comparison in Model::cast_to_bool compares
+    the number itself (no abs / rounding / arithmetic on it) with the constant 0.0 using == or !=."""
+    from mir import const_float, op_place
+    from rules_attr import sources
+    b = ck.need(F.one, "Model::cast_to_bool")
+    n = 0
+    for bi, si, s in b.stmts():
+        rv = s["rv"]
+        if rv["k"] != "bin" or rv.get("ty") not in ("f64", "f32") or rv["op"] not in ("Eq", "Ne", "Lt", "Le", "Gt", "Ge"):
+            continue
+        n += 1
+        consts = [const_float(rv["a"]), const_float(rv["b"])]
+        other = rv["b"] if consts[0] is not None else rv["a"]
+        sr = sources(b, other)
+        exact = rv["op"] in ("Eq", "Ne") and (0.0 in [c for c in consts if c is not None]) and not any(x[0] in ("call", "arith") for x in sr)
+        f, l = b.loc(bi, si)
+        ck.ob(rule, "cast_to_bool|float comparison #%d is `== 0.0` on the value" % n, exact,
+              "cast_to_bool decides truth with `%s` on %s against %s: numbers that are not exactly zero (1E-17, floating-point residue) become "
+              "FALSE, and IF/NOT disagree with AND/OR on the same cell" % (rv["op"], sorted(map(str, sr))[:3], [c for c in consts if c is not None]), f, l)
+    ck.ob(rule, "cast_to_bool|has a number arm", n >= 1, "no floating-point comparison found in cast_to_bool (anchor lost?)", b.file, b.line)
